@@ -8,6 +8,7 @@ from layout_common import *
 from codec_common import SPELLINGS, canon
 
 GEN = ["EstructParams", "Cp037", "SchemaMakerParams", "NameCleanerParams"]
+ALSO = ["C09"]   # the WBNav family (Row.name / Row.values over workbook rows) is C09's model, theorems and run; ./check C10 runs that engine too
 RULE = ("random record descriptions (C01's generator with a numeric-rich pool: zoned, signed zoned, COMP-3, binary, X items; OCCURS, OCCURS DEPENDING ON, "
         "REDEFINES at every child position, FILLER) printed as copybooks; an EBCDIC record in which every elementary item holds a valid, position-coded "
         "encoding and 0-3 chosen numeric DISPLAY / COMP-3 occurrences are overwritten with a byte their decoder rejects (0xFA); for EVERY navigation path "
